@@ -207,6 +207,12 @@ fn abuse(obj: &AnyVec, tally: &mut Tally) {
         let mut r = raw0.clone();
         if guarded(|| r.set_bit(len + k, true)).is_ok() { variants.push(r); }
     }
+    // lengths whose word count does not fit (only those: any smaller huge length is a real allocation request that aborts the process)
+    for (new_len, fill) in [(usize::MAX, false), (usize::MAX - 10, false), (usize::MAX - 10, true), (usize::MAX - 62, true)] {
+        let mut r = raw0.clone();
+        let _ = guarded(|| r.resize(new_len, fill));
+        variants.push(r);       // whether or not the call panicked, the vector is used afterwards
+    }
     if let AnyVec::Int(v) = obj {
         for k in [0usize, 1, 2, 5] {
             let mut x = v.clone();
@@ -216,6 +222,7 @@ fn abuse(obj: &AnyVec, tally: &mut Tally) {
     for r in variants {
         let _ = guarded(|| {
             let mut bv = simple_sds::bit_vector::BitVector::from(r);
+            if simple_sds::ops::BitVec::len(&bv) > (1 << 40) { return bv.one_iter().take(300).count() + bv.zero_iter().take(300).count(); }   // (no support structures for an impossible length)
             let a = bv.one_iter().take(300).count() + bv.zero_iter().take(300).count();
             bv.enable_rank(); bv.enable_select(); bv.enable_select_zero();
             let b = (0..8).map(|i| bv.select(i).unwrap_or(0) + bv.select_zero(i).unwrap_or(0) + bv.rank(i * 9)).sum::<usize>();
